@@ -14,7 +14,8 @@ from numpy.polynomial.legendre import leggauss
 from mc import common
 
 LEVEL = "exploration"
-FLOOR = {"CylinderSegment": 3e-5, "TriangularMesh": 1e-6, "Tetrahedron": 1e-6, "Cylinder": 1e-6, "TallMesh": 1e-6, "WideMesh": 1e-6}
+FLOOR = {"CylinderSegment": 3e-5, "TriangularMesh": 1e-6, "Tetrahedron": 1e-6, "Cylinder": 1e-6, "TallMesh": 1e-6, "WideMesh": 1e-6, "TwoPartMesh": 1e-6,
+         "SegmentBeyond360": 3e-5}
 POSE = ((0.3, -0.2, 0.5), (0.4, -0.3, 0.8))
 
 
@@ -43,6 +44,13 @@ def mk_sources():
     tv = lambda e: [(x * e[0] / 2, y * e[1] / 2, z * e[2] / 2) for x in (-1, 1) for y in (-1, 1) for z in (-1, 1)]  # noqa: E731
     S["TallMesh"] = magpy.magnet.TriangularMesh(vertices=tv((0.7, 1.0, 3.0)), faces=cf, polarization=(0.3, 0.2, 1.0), **kw)
     S["WideMesh"] = magpy.magnet.TriangularMesh(vertices=tv((1.4, 3.0, 0.8)), faces=cf, polarization=(0.3, 0.2, 1.0), **kw)
+    # one mesh made of two disconnected closed parts whose supplied face orientations differ (second part inwards)
+    va, vb = np.array(cv), np.array(cv) * 0.8 + (3.0, 0.4, 0.3)
+    fb = [(f[0], f[2], f[1]) for f in cf]
+    S["TwoPartMesh"] = magpy.magnet.TriangularMesh(vertices=np.concatenate([va, vb]), faces=list(cf) + [tuple(i + 8 for i in f) for f in fb],
+                                                   polarization=(0.3, 0.2, 1.0), check_disconnected="ignore", **kw)
+    # section angles beyond 360 deg that straddle it after normalisation
+    S["SegmentBeyond360"] = magpy.magnet.CylinderSegment(dimension=(0.3, 0.9, 1.1, 300, 420), polarization=pol, **kw)
     a = magpy.magnet.Cuboid(dimension=(0.5, 0.4, 0.3), polarization=pol, position=(0.8, 0.1, -0.2))
     b = magpy.current.Circle(diameter=0.9, current=2.0, position=(-0.4, 0.3, 0.4))
     S["Collection"] = magpy.Collection(a, b, **kw)
@@ -61,7 +69,7 @@ GLOBAL_FRAME = ("Collection", "TwoSquares", "TwoMeshes")
 
 SIZE = {"Cuboid": 0.6, "Cylinder": 0.6, "CylinderSegment": 0.9, "Sphere": 0.55, "Tetrahedron": 0.9, "TriangularMesh": 0.6, "Dipole": 0.5,
         "Circle": 0.65, "PolySquare": 0.7, "PolyHexagon": 0.6, "Collection": 1.0, "TwoSquares": 0.7, "TwoMeshes": 1.0,
-        "TallMesh": 0.5, "WideMesh": 0.5}
+        "TallMesh": 0.5, "WideMesh": 0.5, "TwoPartMesh": 0.6, "SegmentBeyond360": 0.9}
 
 
 def to_global(p):
@@ -307,6 +315,12 @@ def enumerate_cases(tier):
         if src == "TallMesh":    # x-face at 0.35: centre on it, low / middle / high along the long axis; and across the top face
             centers = {"centre": (0.02, 0.01, -0.015), "on-surface": (0.7, 0.1, 0.05), "on-surface-high": (0.7, 0.1, 2.0),
                        "on-surface-low": (0.7, -0.2, -2.0), "on-surface-top": (0.1, 0.2, 3.0), "outside": (2.5, 1.3, 4.8)}
+        if src == "TwoPartMesh":   # second part: box of half extents (0.4, 0.48, 0.32) centred at (3, 0.4, 0.3)
+            centers = {"centre": (0.02, 0.01, -0.015), "on-surface": (0.9, 0.1, 0.05), "centre-B": (5.02, 0.7, 0.5),
+                       "on-surface-B": (5.65, 0.7, 0.55), "on-surface-B2": (5.0, 0.7, 1.03), "outside": (2.5, 3.3, 1.8)}
+        if src == "SegmentBeyond360":  # the section covers azimuths -60..60 deg; points at +30 and -30 deg, r = 0.6
+            centers = {"centre": (0.58, 0.33, 0.02), "on-surface": (0.58, 0.33, 0.62), "on-surface-low": (0.58, -0.33, -0.6),
+                       "on-surface-high": (1.0, 0.1, 0.05), "outside": (2.5, 1.3, 0.8)}
         if src == "WideMesh":
             centers = {"centre": (0.02, 0.01, -0.015), "on-surface": (1.4, 0.1, 0.05), "on-surface-high": (0.3, 3.0, 0.1),
                        "on-surface-low": (-1.4, -2.0, 0.1), "on-surface-top": (0.4, 1.9, 0.8), "outside": (3.5, 4.3, 2.8)}
@@ -316,7 +330,7 @@ def enumerate_cases(tier):
                     continue
                 for shape in ("box", "box-rot", "sphere"):
                     # does the test surface cut the body's boundary?  centre: 0.05 inside, 0.6 cuts, >=3 encloses
-                    if cname == "centre":
+                    if cname.startswith("centre"):
                         cuts = size == 0.6
                     elif cname.startswith("on-surface"):
                         cuts = size <= 3.0
@@ -336,7 +350,7 @@ def enumerate_cases(tier):
                                   "offset": [3.0, 0.0, 0.0] if src == "TwoMeshes" else [0, 0, 0],
                                   "shape": "sphere" if shape == "sphere" else "box", "aspect": [1.0, 0.8, 1.3],
                                   "rot": [0, 0, 0] if shape == "box" else [0.3, 0.5, -0.2], "cuts": cuts,
-                                  "panels": [4, 8] if not cuts else ([12, 24] if tier == "quick" else [24, 48])})
+                                  "panels": [4, 8] if not cuts else ([8, 16] if tier == "quick" else [24, 48])})
     for src in SIZE:
         loops = ["nolink", "pentagon"]
         if src in ("Circle", "PolySquare", "PolyHexagon", "Collection", "TwoSquares"):
